@@ -268,7 +268,8 @@ def outcomesG (d : Db) : List Op → List (Res Out)
 inductive Query where
   | crates | roots | children (c : Int) | descendants (c : Int) | parent (c : Int) | name (c : Int)
   | valid (c : Int) | byName (n : Bytes) | byParentName (p : Int) (n : Bytes) | tracks (c : Int)
-  | entities (l : Int) | allTracks
+  | entities (l : Int) | allTracks | trackById (t : Int) | crateById (c : Int)
+  | dbUuid | dbVersionName | dbDirectory | dbVerify | crateDb (c : Int)   -- no model content: tie-only
   deriving Repr, DecidableEq
 
 /-- crate::name (crate_impl.cpp:183-192) -/
@@ -305,5 +306,27 @@ def queryG (d : Db) : Query → Res Unit
   | .tracks c => (getForListG d.pe c).bind fun _ => .ok ()
   | .entities l => (getForListG d.pe l).bind fun _ => .ok ()
   | .allTracks => .ok ()
+  | .trackById _ => .ok ()       -- track_table::exists
+  | .crateById _ => .ok ()       -- playlist_table::exists
+  | .dbUuid | .dbVersionName | .dbDirectory | .dbVerify | .crateDb _ => .ok ()
+
+/-- **Every public operation of `database` / `crate`** over the 2.x crate model: a mutation or a query.
+(`crate::add_tracks(first, last)` is the header template `for (it …) add_track(*it)`: a list of `addTrack`.) -/
+inductive Call where
+  | mutate (op : Op)
+  | q (q : Query)
+  deriving Repr, DecidableEq
+
+def callG (d : Db) : Call → Db × Res Unit
+  | .mutate op => let p := stepG d op; (p.1, p.2.bind fun _ => .ok ())
+  | .q q => (d, queryG d q)
+
+def callOutcomes (d : Db) : List Call → List (Res Unit)
+  | [] => []
+  | c :: t => (callG d c).2 :: callOutcomes (callG d c).1 t
+
+def callRun (d : Db) : List Call → Db
+  | [] => d
+  | c :: t => callRun (callG d c).1 t
 
 end EngineModel.Api.GuardedV2
